@@ -74,6 +74,8 @@ PROTS = {
     'default': HttpRpc(app=APP),
     'soft': HttpRpc(app=APP, validator='soft'),
     'hier_delim=_': HttpRpc(app=APP, hier_delim='_'),
+    'strict': HttpRpc(app=APP, strict_arrays=True),
+    'strict+soft': HttpRpc(app=APP, strict_arrays=True, validator='soft'),
 }
 
 
@@ -166,6 +168,114 @@ def http_occurs(sx, p):
     return sx.And(not ok, is_client_validation_fault(out.fault))
 
 
+@harness('C03', tier_params={'quick': [(n, c, sh) for n in (1, 2, 3) for c in ('strict', 'strict+soft') for sh in ('Array', 'max_occurs')],
+                             'thorough': [(n, c, sh) for n in (1, 2, 3, 4) for c in ('strict', 'strict+soft') for sh in ('Array', 'max_occurs')]},
+         label=lambda p: 'n=%d %s %s' % p,
+         functions=['spyne.protocol.dictdoc.simple.SimpleDictDocument.simple_dict_to_object'],
+         bounds={'doc': 'n <= 3 (quick) / 4 (thorough) array elements keyed b[<idx>].v where the symbolic one-digit indexes '
+                        'are any permutation of 0..n-1 (the contiguous spelling strict_arrays demands), stored in any order'})
+def strict_arrays_order(sx, p):
+    """strict_arrays=True: contiguous indexes in any pair order give the elements in index order"""
+    n, cfg, shape = p
+    prot = PROTS[cfg]
+    cls, arr = (Outer, 'b') if shape == 'Array' else (Outer2, 'c')
+    idx = [sx.digits('i%d' % j, 1) for j in range(n)]
+    iv = [sx.digits_value(t) for t in idx]
+    for j in range(n):
+        sx.assume(iv[j] < n)
+        for k in range(j):
+            sx.assume(sx.Not(iv[j] == iv[k]))
+    vals = [sx.digits('v%d' % j, 1) for j in range(n)]
+    pairs = [(arr + '[' + idx[j] + '].v', [vals[j]]) for j in range(n)]
+    pairs.append(('a', ['7']))
+    out = prot.simple_dict_to_object(CTX, sx.mkdict(pairs), cls, prot.validator)
+    got = getattr(out, arr)
+    if got is None or len(got) != n:
+        return False
+    ok = [out.a == 7]
+    for j in range(n):
+        for pos in range(n):
+            ok.append(sx.Implies(sx.eq(iv[j], pos), sx.eq(got[pos].v, sx.digits_value(vals[j]))))
+    return sx.And(*ok)
+
+
+def _obj_occ_class(mn, mx):
+    class Holder(ComplexModel):
+        __namespace__ = 'tns'
+        __type_name__ = 'OHolder_%s_%s' % (mn, mx)
+        _type_info = [('items', Inner.customize(min_occurs=mn, max_occurs=mx)), ('y', Unicode)]
+    return Holder
+
+
+OBJ_OCC_GRID = [(mn, mx) for mn in (0, 1, 2) for mx in (2, 3, 'unbounded')]
+OBJ_OCC_CLASSES = {g: _obj_occ_class(*g) for g in OBJ_OCC_GRID}
+
+
+@harness('C03', params=[(g, c) for g in OBJ_OCC_GRID for c in ('soft', 'strict+soft')],
+         label=lambda p: 'min=%s max=%s %s' % (p[0][0], p[0][1], p[1]),
+         functions=['spyne.protocol.dictdoc.simple.SimpleDictDocument.simple_dict_to_object',
+                    'spyne.protocol.dictdoc._base.DictDocument._check_freq_dict'],
+         bounds={'count': '0..max+1 objects (4 for unbounded) spelled items[0].v .. items[n-1].v next to a scalar member; '
+                          'values symbolic digits; strict_arrays on and off'})
+def http_object_occurs(sx, p):
+    """HttpRpc soft validation: an array-of-objects member with n elements is accepted <=> min_occurs <= n <= max_occurs"""
+    (mn, mx), cfg = p
+    prot = PROTS[cfg]
+    cls = OBJ_OCC_CLASSES[(mn, mx)]
+    top = 4 if mx == 'unbounded' else mx + 1
+    n = sx.choose('n', list(range(0, top + 1)))
+    vals = [sx.digits('v%d' % i, 1) for i in range(n)]
+    pairs = [('y', ['s'])] + [('items[%d].v' % i, [vals[i]]) for i in range(n)]
+    out = run_soft(lambda: prot.simple_dict_to_object(CTX, sx.mkdict(pairs), cls, prot.validator))
+    ok = n >= mn and (mx == 'unbounded' or n <= mx)
+    sx.observe('accepted', out.accepted)
+    if out.accepted:
+        got = out.value.items
+        if n == 0:
+            return ok and (got is None or got == [])
+        if got is None or len(got) != n:
+            return False
+        return sx.And(ok, *[sx.eq(a.v, sx.digits_value(b)) for a, b in zip(got, vals)])
+    return sx.And(not ok, is_client_validation_fault(out.fault))
+
+
+class Pair(ComplexModel):
+    __namespace__ = 'tns'
+    one = Inner
+    two = Inner
+
+
+class Twice(ComplexModel):
+    __namespace__ = 'tns'
+    p = Pair
+    k = Inner
+    ks = Array(Inner)
+
+
+@harness('C03', params=['default', 'soft', 'hier_delim=_'],
+         functions=['spyne.model.complex.ComplexModelBase.get_simple_type_info_with_prot',
+                    'spyne.protocol.dictdoc.simple.SimpleDictDocument.simple_dict_to_object'],
+         bounds={'doc': 'a signature that uses one complex type in four places (two sibling members of a nested object, a '
+                        'member, an array); each of the four leaves p.one.v, p.two.v, k.v, ks[0].v present or absent, values '
+                        'symbolic digits'})
+def repeated_type_members(sx, cfg):
+    """every place a complex type is used in is addressable: each leaf reaches its own member, absent ones stay None"""
+    prot = PROTS[cfg]
+    d = '_' if cfg == 'hier_delim=_' else '.'
+    keys = ['p' + d + 'one' + d + 'v', 'p' + d + 'two' + d + 'v', 'k' + d + 'v', 'ks[0]' + d + 'v']
+    have = [sx.choose('have%d' % i, [True, False]) for i in range(4)]
+    vals = [sx.digits('v%d' % i, 1) for i in range(4)]
+    pairs = [(keys[i], [vals[i]]) for i in range(4) if have[i]]
+    out = prot.simple_dict_to_object(CTX, sx.mkdict(pairs), Twice, prot.validator)
+    g = lambda o, *path: None if o is None else (g(getattr(o, path[0], None), *path[1:]) if path else o)
+    got = [g(out, 'p', 'one', 'v'), g(out, 'p', 'two', 'v'), g(out, 'k', 'v'),
+           (out.ks[0].v if getattr(out, 'ks', None) else None)]
+    ok = []
+    for i in range(4):
+        ok.append(sx.eq(got[i], sx.digits_value(vals[i])) if have[i] else got[i] is None)
+    return sx.And(*ok)
+
+
 class Group(ComplexModel):
     __namespace__ = 'tns'
     name = Unicode
@@ -246,8 +356,13 @@ def flat_roundtrip(sx, p):
     bv = [sx.int('b%d' % i, lo, hi) for i in range(nb)]
     bw = [sx.text('w%d' % i, 1, alphabet='xy') for i in range(nb)]
     nums = [sx.int('n%d' % i, lo, hi) for i in range(nn)]
-    o = Flat(a=a, s=s, inner=Inner(v=iv), b=[Inner(v=bv[i], w=bw[i]) for i in range(nb)] if nb else None,
-             nums=nums if nn else None)
+    bs = [Inner(v=bv[i], w=bw[i]) for i in range(nb)]
+    # the (acyclic) object graph may reference one instance from two places
+    share = sx.choose('share', ['none'] + (['b[0] is b[1]'] if nb == 2 else []))
+    if share == 'b[0] is b[1]':
+        bs[1] = bs[0]
+        bv[1], bw[1] = bv[0], bw[0]
+    o = Flat(a=a, s=s, inner=Inner(v=iv), b=bs if nb else None, nums=nums if nn else None)
     flat = prot.object_to_simple_dict(Flat, o, subinst_eater=_eater)
     doc = {}
     for k, v in flat.items():
